@@ -431,6 +431,13 @@ def run(ctx):
     # ... and a refused slot must not be counted: the compile of a text that needs too many compiler temporaries must end in a
     # result code, not in a clean-up that trusts a counter bumped before the capacity test (shared with C05)
     importlib.import_module("rules.c05").counter_unchanged_on_refusal(db, rep, "D19-COUNTER-ON-REFUSAL")
+    # ---- D24: "returned programs can be compiled safely": a program of at most ORC_N_INSNS instructions grows while it is rewritten
+    # (a load per source, a store per destination); the compiler's own appenders are the last bound check before its fixed tables
+    # (rule shared with C05 D1)
+    n20 = 0
+    for f20 in db.tu("orccompiler").main_functions():
+        n20 += rcap(db, f20, rep, rule="D24-R-CAP-COMPILER") or 0
+    rep.floor("D24-R-CAP-COMPILER", 3)
     errno_cleared_before_judged(db, rep)
     out_params_not_read(db, rep)
     growth_covers_need(db, rep)
